@@ -3,6 +3,8 @@
   SM-SIGN   every scalar-multiplication sibling honours the sign of each scalar parameter on every path that returns a point
             computed from it (sign test, reduction modulo the order, delegation)
   OUT-RBW   no coordinate of an output point is read before it was written on every path
+  ALIAS-RW  no coordinate of an input point is read in a later statement than a write of that coordinate of an output point
+            (single points; precomputation tables are not outputs anyone aliases)
   CONST-IN  no function of the module stores through a parameter it declares const
   (hashing to the curve and cofactor clearing are decided under C13, the decoder under C07, the recoding buffers under
   C08, the ladder under C20)
@@ -21,6 +23,7 @@ EXPLANATION = (
     "scalars longer than the group order are not reduced by these siblings today (observation, DESIGN.md 10.6). Nothing of "
     "RELIC is executed.")
 
+POINT_ALIAS_OK = {}
 FAM = re.compile(r"^ed_mul(_\w+)?$")
 NOT_MUL = re.compile(r"_mul_(pre|cof|tab)|_mul_pre_|_mul_fix_tab")
 
@@ -34,8 +37,9 @@ def analyse(ctx, prog, chk):
     fam = family(prog)
     ns = expsib.rule_sm_sign(ctx, prog, chk, fam, FAM)
     nr = alias.rule_out_rbw(ctx, prog, chk, lambda fn: fn.rfile.startswith("src/ed/"), re.compile(r"^ed_t\b"))
+    na = alias.rule(ctx, prog, chk, lambda fn: fn.rfile.startswith("src/ed/"), POINT_ALIAS_OK, points=True)[0]
     nc = c02.rule_const_in(ctx, prog, chk, prefix=("src/ed/",))
-    return {"sign": ns, "rbw": nr, "const": nc}
+    return {"sign": ns, "rbw": nr, "const": nc, "palias": na}
 
 
 def selfcheck(ctx, prog, chk):
@@ -45,6 +49,7 @@ def selfcheck(ctx, prog, chk):
 def run(ctx, chk):
     c = analyse(ctx, ctx.program("BASE"), chk)
     chk.floor("SM-SIGN", "scalar parameters of the multiplication siblings", c["sign"], 20)
-    chk.floor("OUT-RBW", "output points of functions that also take an input point", c["rbw"], 40)
+    chk.floor("OUT-RBW", "output points of functions that also take an input point", c["rbw"], 35)
+    chk.floor("ALIAS-RW", "output/input pairs of single points", c["palias"], 35)
     chk.floor("CONST-IN", "const pointer parameters of the module", c["const"], 60)
     analyse(ctx, ctx.program("P255"), chk)
